@@ -17,11 +17,11 @@ Toks(ts) == [i \in 1..Len(ts) |-> <<ts[i][1], ts[i][2]>>]
 
 Clauses(e) ==
   LET out == Toks(e.toks)  out0 == Toks(e.toks0)  nt == NoTails(e.tree) IN
-  << <<"C05:InlineSubtreeRendersAsExactConcatenation", nt => C05i(e.tree, out)>>,
-     <<"C05:NothingBetweenInlineSiblings", nt => C05ii(e.tree, out)>>,
+  << <<"C05:InlineSubtreeRendersAsExactConcatenation", C05i(e.tree, out)>>,
+     <<"C05:NothingBetweenInlineSiblings", C05ii(e.tree, out)>>,
      <<"C05:LayoutOnlyAtBlockTagEdges", nt => C05iii(e.tree, out)>>,
      <<"C06:LineAndIndentRule", e.addws => C06Holds(e.tree, e.indent, e.eol, out)>>,
-     <<"C07:MetadataLeavesNoTrace", out = out0>>,
+     <<"C07:MetadataLeavesNoTrace", out = out0 /\ e.strSame>>,
      <<"DRIFT:RenderOps", out = Render(e.tree, e.indent, e.eol, e.addws)>> >>
 
 Judge(e) == [fail |-> FailList(Clauses(e))]
